@@ -1,8 +1,8 @@
 (* C27/Examples.v — concrete instances (non-vacuity) and the refutation witnesses. *)
 From ZV Require Import Base.Bytes Base.Res Base.WinnowFacts C26.Desc C26.Tree C26.Msg C26.Std C27.Model C28.Model C26.Model.
-From ZV Require Import C28.Spec C26.Spec C27.Spec C26.Facts C26.Proofs C28.Proofs C27.Proofs C27.Reader C27.ReadBack C26.Examples C28.Examples.
+From ZV Require Import C28.Spec C26.Spec C27.Spec C26.Facts C26.Proofs C28.Proofs C27.Dedash C27.Proofs C27.Reader C27.ReadBack C26.Examples C28.Examples.
 
-(* a description with doc comments: plain, multi-line with blank lines around, and one containing "--" *)
+(* a description with doc comments: plain, multi-line with blank lines around, and one containing "--" and "-->" *)
 Definition doc_d (bad : bool) : idesc :=
   {| id_name := B "org.zv.Doc";
      id_methods := [{| md_name := B "MAdd"; md_ins := [(B "a0", TU); (B "a1", TS)]; md_out := OTuple [TS; TU]; md_mut := false;
@@ -11,7 +11,7 @@ Definition doc_d (bad : bool) : idesc :=
      id_props := [mkp (B "PZ") TU ARW ETrue false false;
                   {| pd_name := B "PA"; pd_ty := TS; pd_acc := AR; pd_emits := EConst; pd_gfall := false; pd_sfall := false;
                      pd_smut := false; pd_gasync := false; pd_sasync := false;
-                     pd_doc := if bad then [B " a -- b"] else [B " a - b"] |}] |}.
+                     pd_doc := if bad then [B " a -- b --> c ---"] else [B " a - b"] |}] |}.
 
 Definition doc_root (bad : bool) : node :=
   fst (add_at (fst (add_at empty_node [B "zv"; B "a"] (new_inst (doc_d bad) (B "/zv/a")))) [B "zv"; B "a"; B "b"]
@@ -40,8 +40,14 @@ Example doc_text :
   B "  </interface>" ++ [nl].
 Proof. vm_compute. reflexivity. Qed.
 
-Example doc_wellformed : node_dd (doc_root false) = false /\ xi_wf (node_item None (doc_root false)) = true.
-Proof. split; [reflexivity|]. apply wellformed_partial. reflexivity. Qed.
+(* with "--", "-->" and "---" in a doc text: the comment that is written (fix e95e1976) *)
+Example doc_text_dashes :
+  print_item 4 (hd (XC []) (prop_items (nth 1 (id_props (doc_d true)) (mkp [] TU AR ETrue false false)))) =
+  B "    <!--" ++ [nl] ++ B "     a - - b - -> c - - -" ++ [nl] ++ B "     -->" ++ [nl].
+Proof. vm_compute. reflexivity. Qed.
+
+Example doc_wellformed : xi_wf (node_item None (doc_root true)) = true.
+Proof. apply wellformed. Qed.
 
 Example doc_lists :
   match get_child (doc_root false) [B "zv"; B "a"] with
@@ -52,18 +58,6 @@ Example doc_lists :
   | None => False
   end.
 Proof. vm_compute. split; reflexivity. Qed.
-
-(* ---------------------------------------------------------------- the refutations *)
-(* a doc comment containing "--" is written raw between <!-- and -->: not well-formed XML *)
-Lemma wellformed_refuted :
-  exists n, node_dd n = true /\ xi_wf (node_item None n) = false /\
-            exists l, In l (xml_doc_lines [B " a -- b"]) /\ has_dd l = true.
-Proof.
-  exists (doc_root true). split; [reflexivity|]. split; [reflexivity|]. exists (B " a -- b"). split; [now left|reflexivity].
-Qed.
-
-Lemma wellformed_full_refuted : ~ (forall n name, xi_wf (node_item name n) = true).
-Proof. intro F. destruct wellformed_refuted as (n & _ & H & _). rewrite F in H. discriminate. Qed.
 
 (* the nested tree with doc comments reads back as the declared document (comments dropped) *)
 Example doc_reads_back :
